@@ -169,6 +169,31 @@ def run(chk, R, tier, seed):
             cases.append(Case(steps, judge))
     chk.require("products that cancel to a number", 20)
 
+    # -- reciprocals of durations are frequencies: number / unit and
+    # number / quantity for every duration unit (1 / ms is 1 kHz)
+    for d in SI.units_of("Duration"):
+        steps = [{"k": "ru", "e": OP("/", ["i", 1], U(d))},
+                 {"k": "rq", "e": OP("/", ["i", 2], Q(["i", 4], d))}]
+
+        def judge(obs, rec, case, d=d, steps=steps):
+            if not obs:
+                chk.inconclusive_because("reciprocal not observed")
+                return
+            chk.case(("reciprocal", d))
+            chk.count("reciprocals of duration units")
+            for key, want in (("ru", 1 / SI.scale(d)),
+                              ("rq", F(1, 2) / SI.scale(d))):
+                r = obs.get(key, {})
+                ok = r.get("k") == "Q" and r.get("t") == "Frequency" and \
+                    r.get("u") in SI.UNITS and \
+                    val(r) * SI.scale(r["u"]) == want
+                if not ok:
+                    chk.violation("%s with %s: got %s, expected %s Hz" %
+                                  (key, d, brief(r), want),
+                                  dict(obs=obs, steps=steps), "compound")
+        cases.append(Case(steps, judge))
+    chk.require("reciprocals of duration units", 5)
+
     # -- compound units
     compound = dict(SI.COMPOUND)
     compound["N"] = [("kg", 1), ("m/s²", 1)]
